@@ -127,7 +127,10 @@ class OverlapWindowPlugin(Plugin):
 
     def cache_beyond(self, io, prev_split, cached):
         original_prev_split = prev_split
-        for try_counter in range(self.max_trials):
+        try_counter = 0
+        # Each pass moves the split to an earlier time (bounded by the start of the chunks),
+        # so this terminates; interleaved rows of several outputs can need many passes.
+        while True:
             for data, chunk in io.items():
                 # data here can not either data_kind or data_type
                 # do not temporarily modify result here because it will be used later
@@ -141,13 +144,5 @@ class OverlapWindowPlugin(Plugin):
                     f"Extra time is {original_prev_split - prev_split} ns"
                 )
                 break
-            else:
-                self.log.debug(
-                    "Inconsistent start times of the cashed chunks {io} after"
-                    f" {try_counter}/{self.max_trials} passes."
-                )
-        else:
-            raise ValueError(
-                f"Buffer start time inconsistency cannot be resolved after {self.max_trials} tries"
-            )
+            try_counter += 1
         return prev_split
